@@ -46,8 +46,13 @@ _LOGGER.addHandler(logging.NullHandler())
 _FM = fl.settings.factory_manager  # touch once: laziness must not blur identity later
 
 
+RESETTERS: list = []  # further process-global state owned by the harness (reset before every trace)
+
+
 def reset_settings() -> None:
     """Put the process-wide settings singleton back to its documented defaults (and assert it)."""
+    for f in RESETTERS:
+        f()
     s = fl.settings
     for k, v in DEFAULTS.items():
         setattr(s, k, v)
@@ -55,8 +60,11 @@ def reset_settings() -> None:
     s._factory_manager = _FM
     np.seterr(all="ignore")
     v = vars(s)
-    assert set(v) == {"float_type", "decimals", "atol", "rtol", "alias", "logger", "_factory_manager"}, v
+    # (a tree under test may keep further private attributes on the settings object: only the documented ones are pinned)
+    assert {"float_type", "decimals", "atol", "rtol", "alias", "logger", "_factory_manager"} <= set(v), v
     assert v["float_type"] is np.float64 and v["decimals"] == 3 and v["alias"] == "fl"
+    if getattr(s, "debugging", False):  # however the tree under test stores its debug mode, leave it off
+        s.debugging = False
 
 
 def default_logger() -> logging.Logger:
